@@ -79,8 +79,8 @@ def configs(tier):
         symh,
         dict(flat, name="flat-mixed-poly", poly=True),
         mk("flat-poly-sym", "triangle", 2, [["sym", [P1, P2, P1]], ["vecP", 1, 2]], (1, 2), [(2, 0)], coords=("x", "X"), poly=True, ascoded="fails", ops=no_outer),
-        # covariant Piola (N1curl-like) in a nested mixed element on the immersed triangle, trial and test
-        mk("immersed-n1-nested", "triangle", 3, [["mixed", [P1, ["mixed", [["N1", 2], P1]], ["vecP", 1, 3]]]], (1,), [(1, 0), (1, 1)], coords=("x", "X"), ops=small + ("dot",), ascoded="fails"),
+        # covariant Piola (N1curl-like) next to a nested mixed element on the immersed triangle, trial and test
+        mk("immersed-n1-nested", "triangle", 3, [["mixed", [P1, ["N1", 2], ["mixed", [["vecP", 1, 2], P1]]]]], (1,), [(1, 0), (1, 1)], coords=("x", "X"), ops=small + ("dot",), ascoded="fails"),
         # interval in R and in R^2, tetrahedron
         mk("interval", "interval", 1, [["mixed", [["RT", 2], P1, ["vecP", 3, 2]]], P2], (1, 2), [(1, 0)], coords=("x", "X")),
         mk("interval-immersed", "interval", 2, [["mixed", [["RT", 3], P1]], ["mixed", [P2, ["N1", 1]]]], (1, 2), [(2, 0)], ascoded="fails"),
